@@ -166,6 +166,18 @@ Walk ==
   /\ clk' = clk + 1
   /\ UNCHANGED <<now, slot, expSeen, met, cnt>>
 
+(* Relay (C13): the cache is dumped (gob) and the dump restored into a new, *)
+(* EMPTY cache of the same family, which replaces it.  Keys, values,         *)
+(* expiry times and usage counters must survive unchanged; both calls        *)
+(* report the number of entries.  (Restore of entries with an expiry counts  *)
+(* as "expiration set" for the UnlimitedTTL scan short-cut.)                 *)
+Relay ==
+  /\ reply' = Rep("n", NoVal, 0, Cardinality(Used(slot)))
+  /\ op' = Op("Relay", "", NoVal, 0, FALSE)
+  /\ expSeen' = (\E h \in Slots : slot[h] # None /\ slot[h].e # NoExp)
+  /\ clk' = clk + 1
+  /\ UNCHANGED <<now, slot, met, cnt>>
+
 Tick ==
   /\ now < MaxNow
   /\ now' = now + 1
@@ -232,7 +244,7 @@ Next ==
   \/ \E k \in Keys, s \in BOOLEAN : Read(k, s)
   \/ \E k \in Keys : Load(k)
   \/ \E k \in Keys : Delete(k)
-  \/ ExpireAll \/ DeleteAll \/ LenOp \/ Walk \/ Tick
+  \/ ExpireAll \/ DeleteAll \/ LenOp \/ Walk \/ Tick \/ Relay
   \/ \E b \in BOOLEAN : Cleanup(b)
 
 vars == <<now, slot, expSeen, clk, op, reply, met, cnt>>
@@ -265,6 +277,10 @@ MetricsOK ==
   /\ met["write"] = cnt["writes"]
   /\ met["delete"] = cnt["removed"]
   /\ met["evict"] = cnt["evicted"]
+
+(* C13: a relay changes nothing the API can observe.                         *)
+RelayExact ==
+  [][op'.name = "Relay" => slot' = slot /\ reply'.n = Cardinality(Used(slot))]_vars
 
 (* C11 as an action property: a janitor cycle without eviction removes      *)
 (* exactly the entries expired for DEA or longer; everything else survives. *)
